@@ -55,6 +55,9 @@ def _pred_structure(rep, fi, table):
     lp = outer[0]
     rnode = norm(lp.target)
     ws = [w for w in W.walks(fi) if w.node == rnode]
+    if not ws:
+        _delegated(rep, fi, lp, rnode, table)
+        return None
     stages = []
     for w in ws:
         # R5
@@ -103,6 +106,45 @@ def _pred_structure(rep, fi, table):
     return stages, ctrl, final_true, empty_rej, lp
 
 
+def _delegated(rep, fi, lp, rnode, table):
+    """the predicate gets its consumed/produced information from a helper: check the helper's walks (R5) and that
+    consumption and production are kept apart (no signed net coefficient)"""
+    helpers = []
+    for c in walk_local(lp):
+        if isinstance(c, ast.Call) and isinstance(c.func, ast.Name) and c.func.id in fi.module.funcs and len(c.args) >= 2 and norm(c.args[1]) == rnode:
+            helpers.append(fi.module.funcs[c.func.id])
+    if not helpers:
+        raise AnalysisError(f"{fi.key}: no arc walk and no helper taking (G, {rnode})")
+    for h in helpers:
+        rep.touch(h)
+        hnode = h.params[1]
+        hws = [w for w in W.walks(h, graph_names=(h.params[0],)) if w.node == hnode]
+        pm = parent_map(h.node)
+        signs = {}
+        for w in hws:
+            for role, cmp_ in w.roles_tested:
+                want = table.get(role, {}).get("dir")
+                rep.ob("O20.1", "R5", h, (want == w.direction) if want else None, f"{h.params[0]}.{w.method}({hnode}) tests role == '{role}'",
+                       f"arcs with role '{role}' are {want}-arcs of a reaction node; {w.method} enumerates {w.direction}-arcs", node=w.loop)
+            for n in walk_local(w.loop):
+                tgt = val = op = None
+                if isinstance(n, ast.AugAssign) and isinstance(n.target, ast.Subscript):
+                    tgt, op = norm(n.target.value), ("-" if isinstance(n.op, ast.Sub) else "+")
+                elif isinstance(n, ast.Assign) and isinstance(n.targets[0], ast.Subscript) and isinstance(n.value, ast.BinOp):
+                    tgt, op = norm(n.targets[0].value), ("-" if isinstance(n.value.op, ast.Sub) else "+")
+                if tgt:
+                    roles = [r for r, _ in w.roles_tested] or [w.direction]
+                    signs.setdefault(tgt, set()).add((roles[0], op))
+        for tgt, ss in signs.items():
+            ops = {o for _, o in ss}
+            roles = {r for r, _ in ss}
+            folded = len(ops) > 1 and len(roles) > 1
+            rep.ob("O20.2", "R13", h, not folded, f"`{tgt}` receives {sorted(ss)}",
+                   "consumption and production of a reaction are kept apart: folding reactant and product arcs into ONE signed coefficient per species makes a "
+                   "species that occurs on both sides (a catalyst) count as neither consumed nor produced", node=h.node)
+    rep.ob("O20.2", "R13", fi, None, f"{fi.qual} delegates to {[h.qual for h in helpers]}", "consume/produce structure of the predicate is not the recognised walk-and-flag form", node=lp)
+
+
 def preds(rep, table):
     spec = {"_is_siphon_indices": ("product", "reactant", "siphon: every reaction that produces a member also consumes a member"),
             "_is_trap_indices": ("reactant", "product", "trap: every reaction that consumes a member also produces a member")}
@@ -111,7 +153,10 @@ def preds(rep, table):
         fi = rep.f(SR, q)
         directed = W.graph_is_directed(rep.repo, fi, "G")
         rep.ob("O20.1", "R5", fi, True if directed else None, "G", "the graph walked is the directed bipartite view", {"directed": directed}, node=fi.node)
-        stages, ctrl, final_true, empty_rej, lp = _pred_structure(rep, fi, table)
+        res_ = _pred_structure(rep, fi, table)
+        if res_ is None:
+            continue
+        stages, ctrl, final_true, empty_rej, lp = res_
         flag_role = {f: r for f, r, _ in stages}
         ok = None
         if len(ctrl) == 2 and all(c[0] in flag_role for c in ctrl):
@@ -129,6 +174,8 @@ def preds(rep, table):
         okS = bool(sn) and norm(sn[0].value).replace(" ", "") == f"{{{fi.params[1]}[i]foriin{fi.params[3]}}}"
         rep.ob("O20.2", "R13", fi, okS, sn[0].stmt if sn else "S_nodes", "candidate indices are translated to species nodes through the given order")
         shapes[q] = (flag_role, ctrl)
+    if len(shapes) < 2:
+        return
     # duality: trap == siphon with the two role constants swapped
     s_roles = [shapes["_is_siphon_indices"][0].get(c[0]) for c in shapes["_is_siphon_indices"][1]]
     t_roles = [shapes["_is_trap_indices"][0].get(c[0]) for c in shapes["_is_trap_indices"][1]]
@@ -309,6 +356,14 @@ def bfs(rep):
         else:
             ok = any("M0.get(p,0)==MT.get(p,0)" in g for g, _ in gs)
             rep.ob("O20.4", "DOM", fi, ok, f"return True under {[g for g, _ in gs]}", "the empty sequence is returned only if the start already equals the target", node=r)
+    neg = [r for r in returns_of(fi.node) if isinstance(r.value, ast.Tuple) and is_const(r.value.elts[0], False)]
+    for r in neg:
+        gs = guards_of(pm, r, fi.node)
+        lps_ = enclosing_loops(pm, r, fi.node)
+        after_search = fi.node.body[-1] is r and not gs
+        rep.ob("O20.4", "DOM", fi, after_search and not lps_, f"return False under {[norm(t)[:50] for t, _ in gs]}",
+               "a pathway is reported unrealizable only after the bounded search is exhausted (no shortcut may reject a flow that has a valid ordering)", node=r)
+    rep.ob("O20.4", "DOM", fi, len(neg) == 1, f"{len(neg)} negative return(s)", "there is exactly one negative verdict, at the end of the search")
     nt = origin(defs, ast.Name(id="new_tuple", ctx=ast.Load()))
     nm = origin(defs, ast.Name(id="new_mark", ctx=ast.Load()))
     rep.ob("O20.4", "DOM", fi, norm(nt) == "net.marking_to_tuple(new_mark)" and nm in fires, nt, "the compared marking is the one produced by the firing")
